@@ -105,7 +105,7 @@ PROPS = {
         "rule": "planted-solution systems: random geometry X*, 1..15 constraints of any of the 23 kinds sharing entities with parameters derived from X*, anchored or free-floating, one in ten with an additional short fully determined feature (edge or arc of size 1.5e-3..9e-3 with its guess off by up to 30% of its size), guesses X* + delta with |delta| <= 1e-2*scale; the oracle demands Ok, all satisfied, <= 8 iterations and |x_out - x0| <= 1.5|x0 - X*| + 1e-9, excluding (by the oracle) degenerate / ill-conditioned plants and branch switches inside the ball",
     },
     "C04": {
-        "modules": ["Ezpz.Properties.C04", "Ezpz.Real.GaussNewton", "Ezpz.Real.GaussNewton2", "Ezpz.Real.GaussNewton3", "Ezpz.Real.Linear", "Ezpz.Real.LinearConvergence", "Ezpz.Real.GapExists", "Ezpz.Proofs.Untouched2", "Ezpz.Real.UntouchedEntry", "Ezpz.Real.LinearEntry", "Ezpz.Real.StepExamples"],
+        "modules": ["Ezpz.Properties.C04", "Ezpz.Real.GaussNewton", "Ezpz.Real.GaussNewton2", "Ezpz.Real.GaussNewton3", "Ezpz.Real.Linear", "Ezpz.Real.LinearConvergence", "Ezpz.Real.GapExists", "Ezpz.Proofs.Untouched2", "Ezpz.Real.UntouchedEntry", "Ezpz.Real.LinearEntry", "Ezpz.Real.StepExamples", "Ezpz.Real.LeastSquaresLimit", "Ezpz.Real.LeastSquaresEntry"],
         "suites": [
             {"suite": "kernels", "quick": (750,), "thorough": (10000,)},
             {"suite": "trace", "quick": (2000, "linear,planted,contra,conflict,collapsed,pinned,large"), "thorough": (18000, "linear,planted,contra,conflict,prio,caps,collapsed,pinned,large")},
@@ -115,7 +115,7 @@ PROPS = {
         ],
         "partial": ["the 1e-4*scale closeness of the f64 result to the exact minimum-norm least-squares point (effect of lambda = 1e-9, of stopping early, of rounding) is not proved: the theorems give the exact algebra (one step is the Tikhonov minimiser; displacement stays in range(A^T); a stationary point with displacement in range(A^T) is the unique nearest least-squares point; the last step d certifies stationarity up to lambda*|d|); in exact arithmetic a consistent system converges geometrically with factor lambda/(c+lambda) per round to the solution nearest the guess, c a lower bound of |Az|^2/|z|^2 on range(A^T), which exists and is positive for every matrix (gap_exists), and the nearest solution exists (nearest_solution_exists): linear_consistent_converges_from_guess has no hypothesis beyond consistency; that the f64 iteration gets there within 35 rounds and stops is left to the exact-rational oracle on the real code",
                     "unmentioned variables: untouched_var_fixed' (Proofs/Untouched2.lean, every scalar type) says: no request mentions j (=> no triplet in column j, jacobianAll_no_column) and the solver returns a neutral element of + in slot j for Jacobians without a column j (ZeroStepOn) => j is returned at its guess; over the reals every exact solver satisfies ZeroStepOn (zeroStepOn_of_exact via untouched_var_step_zero), giving unmentioned_variable_returned_at_guess with no hypothesis on the solver beyond exactness with a non-zero damping (StepEx.unmentioned_example_with_step is a run that takes a real step with an exact damped solver); that faer's LU returns exactly 0.0 there is checked on every recorded trace (zero-column certificate). For f64 'exactly at its guess' means equal as numbers: a guess of -0.0 comes back as +0.0 (-0.0 + 0.0)",
-                    "the linear-algebra theorems are tied to the model by Real/LinearEntry.lean: for a list of linear kinds the assembled residual is A x - b with a constant A (assembled_affine), one round of the model's loop with an exact solver is IsStep A (A x - b) lambda (x' - x) (newtonStep_isStep), and after j executed rounds of newtonLoop the squared distance to the nearest solution of a consistent system has contracted by q^(2j), q < 1 depending only on the requests and lambda (newtonRun_converges_prefix, newtonLoop_result_contracts); for inconsistent systems existence of the limit point is not proved (nearest_least_squares characterises it if it is reached)"],
+                    "the linear-algebra theorems are tied to the model by Real/LinearEntry.lean: for a list of linear kinds the assembled residual is A x - b with a constant A (assembled_affine), one round of the model's loop with an exact solver is IsStep A (A x - b) lambda (x' - x) (newtonStep_isStep), and after j executed rounds of newtonLoop the squared distance to the nearest solution of a consistent system has contracted by q^(2j), q < 1 depending only on the requests and lambda (newtonRun_converges_prefix, newtonLoop_result_contracts); for INCONSISTENT systems too (Real/LeastSquaresLimit.lean, Real/LeastSquaresEntry.lean): the normal equations are always consistent (normal_equations_consistent), the least-squares point nearest the guess exists and is unique (nearest_least_squares_exists(_spec), nearest_least_squares_point_unique), and every run of exact damped rounds converges geometrically to it with a rate depending on A and lambda only (linear_converges_to_least_squares, no consistency hypothesis; model level: newtonRun_converges_prefix_ls, newtonLoop_result_contracts_ls; non-vacuity on the inconsistent pair 'x = 0', 'x = 1' with limit 1/2)"],
         "assumptions": ["the LU answer is a parameter; IsStep characterises it over the reals"],
         "rule": "linear systems over up to 8 points with dyadic-rational parameters and guesses (consistent, redundant, contradictory, rank-deficient) solved by the real code and compared with x* = x0 + pinv(A)(b - A x0) computed exactly (sympy rationals); systems of any kind with extra unmentioned variables must return those at their guesses (equal as f64 values: bit for bit except that a -0.0 guess may come back as +0.0)",
     },
@@ -201,14 +201,14 @@ PROPS = {
         "assumptions": ["faer is built without the rayon feature (extracted from Cargo.toml on this run): sequential linear algebra"],
     },
     "C11": {
-        "modules": ["Ezpz.Properties.C11", "Ezpz.Proofs.Resolve", "Ezpz.Real.Resolve"],
+        "modules": ["Ezpz.Properties.C11", "Ezpz.Proofs.Resolve", "Ezpz.Real.Resolve", "Ezpz.Real.StepStopNotFixed"],
         "suites": [
             {"suite": "trace", "quick": (1500, "planted,linear,prio,resolve,large"), "thorough": (15000, "planted,linear,prio,caps,contra,resolve,large")},
         ],
         "oracles": [
             {"bin": "oracle_c11", "min_stats": {"systems": 0.5, "exact_starts": 0.333, "near_tolerance_starts": 0.14, "tolerance_boundary_starts": 0.464, "chains": 0.405, "chain_links": 1.21}, "quick": ("{seed}", "3000"), "thorough": ("{seed}", "20000")},
         ],
-        "partial": ["results that stopped on the step-size test or fell back to a higher level are not 'converged' in the property's sense; the theorems' hypotheses say so (ghost flag byResidual / ConvergedAt / htop); the file has a counterexample for the fall-back case (a lower-level fall-back result is not a fixed point of the full list), none for the step-size stop",
+        "partial": ["results that stopped on the step-size test or fell back to a higher level are not 'converged' in the property's sense; the theorems' hypotheses say so (ghost flag byResidual / ConvergedAt / htop); the file has a counterexample for the fall-back case (a lower-level fall-back result is not a fixed point of the full list), and Real/StepStopNotFixed.lean one for the step-size stop (step_stop_not_fixed_point: with convergence tolerance 1e-12 and step tolerance 10 the solve of 'variable 0 is 5' from 0 returns after one applied step at the step test - reported iterations 0, as in newton.rs - and re-solving from that result moves variable 0 again; resolve_is_identity_needs_residual_stop: every hypothesis of the re-solve theorem but the ghost flag holds and its conclusion fails)",
                     "converged_guess_untouched (repaired: its hypothesis used to be unsatisfiable unless some request had priority 0) derives success and gives values unchanged, 0 iterations, unsatisfied = [] and the top priority, every scalar type, every LU oracle; resolve_untouched lifts it to a re-solve from a previous result at the public entry point; the clauses about sub-lists and about adding already-satisfied constraints (ConvergedAt_subset, ConvergedAt_append, converged_guess_untouched_append, resolve_with_extra_untouched) need the order laws MaxLaws (le_trans, fmax is the least upper bound): true over the reals (Real/Resolve.lean), FALSE for f64 when a residual is NaN because fmax skips NaN (counterexample in Properties/C11.lean) - for finite residuals the f64 behaviour is covered by the oracle's chains"],
         "assumptions": [],
     },
